@@ -259,9 +259,9 @@ fn c20_ctpk_truncated_prefixes() {
     kani::cover!(sel == 5);
 }
 
-// @tier quick
+// @tier thorough
 // @timeout 1800
-// @mem 16
+// @mem 40
 // @bounds strict prefixes of the BCH single-texture image cut at: empty, inside the header, inside the content table, at the payload start (solver-chosen arm)
 // @unwindset memchr=400
 // @cbmc --max-field-sensitivity-array-size 512
